@@ -99,6 +99,9 @@ package trie
 //@               forall i2 int, c2 int :: {H1[walk(H0, V0, t, B, O, i2)][c2]} i < i2 && i2 < N ==> !H1[walk(H0, V0, t, B, O, i2)][c2]
 //@   ensures @C15 !result ==> H1 == H0 && V1 == V0
 //@   ensures @C15 result ==> prunedOnly(H0, V0, H1, A0, t, B, O, N)
+// ... and the pruning goes as far as it can: it stops at the deepest node of the path that keeps another child (SI; -1: none)
+//@   witness SI
+//@   ensures @C15 result ==> prunedUpTo(H0, V0, H1, t, B, O, N, SI)
 //@   ensures @C15 tree(H0, V0, A0, t) ==> tree(H1, V1, alloc, t)
 //@   ensures alloc == A0 && closed(H1, V1, alloc)
 //@   ensures forall x ref :: x != nil ==> !isnil(x.m)
@@ -122,6 +125,7 @@ package trie
 //@                 exists i2 int :: i < i2 && i2 < N && y == stack[i2] && c == B[O + i2]
 //@     invariant @C15 forall i2 int, c2 int :: {heaphas(t.m)[stack[i2]][c2]} i < i2 && i2 < N ==> !heaphas(t.m)[stack[i2]][c2]
 //@     decreases i + 1
+//@     snapshot-after SI := i
 
 //@ func Trie.keys
 //@   props C15 C18
